@@ -339,8 +339,16 @@ def rand_program(rnd, cfg, n_events, weights, keys=3, args=3, max_calls=10, dist
             e = rnd.choice([['fin', b], ['raise', b, 1], ['yield', b, rnd.randrange(keys), 'v', 1]])
         if e is None:
             continue
+        nb0 = m.nbid
         evs.append(e)
         m.apply(e)
+        if (cfg['conc'] == 1 and weights.get('raise') and e[0] in ('call', 'chain', 'burst', 'adv')
+                and m.nbid == nb0 + 1 and rnd.random() < 0.12):
+            # the batch that just started raises at once — synchronously when called, where that is observable
+            # as the model's BRaise right after the start (see batcher_drv: ['raise', b, e, 'sync'])
+            e2 = ['raise', nb0, rnd.randrange(3), 'sync']
+            evs.append(e2)
+            m.apply(e2)
     return m, evs
 
 
